@@ -254,6 +254,11 @@ def run(sim, sc):
             sim.violation('enter:failed-without-fault', {'exc': repr(out.enter_exc)[:300], 'cycle': ci})
             return obs
         obs['cycles'] += 1
+        if getattr(out, 'backlog_on_entry', 0):
+            # nothing has been submitted yet in this lifecycle, yet the server counts requests as "being processed": those slots are
+            # lost to this lifecycle (backpressure rejects at capacity - stale; with stale == capacity every request is turned away)
+            sim.violation('reuse:re-entered-server-starts-with-occupied-slots', {'cycle': ci, 'backlog_on_entry': out.backlog_on_entry, 'capacity': sc['capacity']})
+            return obs
         check_outcomes(sim, sub, out)
         if not check_clean('after-exit'):
             return obs
@@ -263,6 +268,7 @@ def run(sim, sc):
 def _sync_body(sim, server, sub, out):
     import threading
     try:
+        out.backlog_on_entry = server.backlog
         ths = [threading.Thread(target=servers.sync_caller, args=(sim, server, ci, c['ops'], out.recs), name=f'harness-caller-{ci}', daemon=True)
                for ci, c in enumerate(sub['callers'])]
         for th in ths:
@@ -292,6 +298,7 @@ async def _async_body(sim, server, sub, out):
         out.enter_exc = e
         return
     try:
+        out.backlog_on_entry = server.backlog
         tasks = [asyncio.create_task(servers.async_caller(sim, server, ci, c['ops'], out.recs)) for ci, c in enumerate(sub['callers'])]
         await asyncio.gather(*tasks)
         for x in sub['post']:
